@@ -67,7 +67,7 @@ def run(res, f, tier):
     got = set()
     for s, rv in paths:
         got.add((frozenset(norm_cond(c) for c in s.conds), tuple(events_of(s)), show(norm(it.resolve(s, rv)))))
-    sources = ["into_iter([Rule]::iter(self.rules))", "into_iter(self.rules)"]
+    sources = ["into_iter([Rule]::iter(self.rules))", "into_iter(self.rules)", "[Rule]::iter(self.rules)"]
     match = None
     for src in sources:
         want = set()
